@@ -23,6 +23,8 @@
 //           3 / 4 / 5 (rep 5, with LCP): StringLcpPtr<CharStringSet, LcpType> with LcpType = uint8_t / uint16_t / uint64_t
 //        rep 4: 0 StringSuffixSet::Initialize (all suffixes in index order)  1 all suffixes, initially in reverse order
 //               2 only the suffixes at even positions (set constructed from an iterator range)
+// usage: sort_harness <case file> [threads]   threads > 1: the cases are processed in batches of <threads> real threads that
+//        start together (each thread sorts its own collection with its own lcp array); output is in case order either way
 // output line: ids:<i0,i1,...>|lcp:<v0,v1,...or ->|strs:<hex,... only for rep 2, else ~>     or  APIFAIL:<what>
 #include <tlx/sort/strings.hpp>
 #include <tlx/sort/strings/insertion_sort.hpp>
@@ -30,6 +32,8 @@
 #include <tlx/sort/strings/radix_sort.hpp>
 
 #include <algorithm>
+#include <atomic>
+#include <thread>
 #include <deque>
 #include <cstdint>
 #include <cstdio>
@@ -93,7 +97,20 @@ static void run_detail_inplace(int algo, const Ptr& p, size_t depth, size_t mem)
     }
 }
 
-static const char* g_apifail = nullptr;
+static thread_local const char* g_apifail = nullptr;
+static thread_local std::string g_line;          // result line of the case this thread is processing
+
+// threaded mode: the threads of a batch meet here once more right before they call the sorter, so that the sorts really overlap
+static std::atomic<size_t> g_sync_arrived(0);
+static size_t g_sync_k = 1;
+#include <chrono>
+static void sync_point() {
+    if (g_sync_k <= 1) return;
+    ++g_sync_arrived;
+    auto t0 = std::chrono::steady_clock::now();
+    while (g_sync_arrived.load() < g_sync_k &&
+           std::chrono::steady_clock::now() - t0 < std::chrono::seconds(3)) std::this_thread::yield();
+}
 #define API_CHECK(c) do { if (!(c) && !g_apifail) g_apifail = #c; } while (0)
 
 static const size_t G1 = 2, G2 = 3;
@@ -105,6 +122,7 @@ static void run_array(int algo, int view, bool lcp, size_t depth, size_t mem,
                       std::vector<typename SS::String>& arr, std::vector<std::uint32_t>& lcpa, MkGuard mkguard, Token token) {
     typedef typename SS::String String;
     const size_t n = arr.size();
+    sync_point();
     if (view == 0) {
         SS ss(arr.data(), arr.data() + n);
         if (lcp) { StringLcpPtr<SS, std::uint32_t> p(ss, lcpa.data()); API_CHECK(p.with_lcp); API_CHECK(p.size() == n); run_detail(algo, p, depth, mem); }
@@ -172,7 +190,7 @@ static void run_array(int algo, int view, bool lcp, size_t depth, size_t mem,
 
 static void print_result(const std::vector<long>& ids, bool lcp, const std::vector<std::uint32_t>& lcpa,
                          const std::vector<std::string>* strs) {
-    if (g_apifail) { printf("APIFAIL:%s\n", g_apifail); return; }
+    if (g_apifail) { g_line = std::string("APIFAIL:") + g_apifail; return; }
     std::string out = "ids:";
     char buf[32];
     for (size_t i = 0; i < ids.size(); ++i) { snprintf(buf, sizeof buf, i ? ",%ld" : "%ld", ids[i]); out += buf; }
@@ -182,7 +200,7 @@ static void print_result(const std::vector<long>& ids, bool lcp, const std::vect
     out += "|strs:";
     if (!strs) out += "~";
     else for (size_t i = 0; i < strs->size(); ++i) { if (i) out += ","; out += tohex((*strs)[i]); }
-    puts(out.c_str());
+    g_line = out;
 }
 
 static std::string ptr_token(const void* p) { char b[32]; snprintf(b, sizeof b, "%p", p); return b; }
@@ -193,6 +211,7 @@ template <typename SS, typename LcpT>
 static void run_lcptype(int algo, size_t depth, size_t mem, std::vector<typename SS::String>& arr, std::vector<std::uint32_t>& lcpa) {
     const size_t n = arr.size();
     const LcpT poison = static_cast<LcpT>(POISON);
+    sync_point();
     std::vector<LcpT> l(n, poison);
     SS ss(arr.data(), arr.data() + n);
     StringLcpPtr<SS, LcpT> p(ss, l.data());
@@ -214,12 +233,9 @@ static void run_cstring_set(int algo, int view, bool lcp, size_t depth, size_t m
     for (size_t i = 0; i < ptrs.size(); ++i) ptrs[i] = reinterpret_cast<unsigned char*>(const_cast<typename std::remove_const<CharT>::type*>(arr[i]));
 }
 
-int main(int argc, char** argv) {
-    if (argc < 2) return 2;
-    std::ifstream in(argv[1]);
-    std::string line;
-    while (std::getline(in, line)) {
-        if (line.empty()) continue;
+static void process(const std::string& line) {
+    g_line = "SKIPPED";          // representation not compiled into this part
+    {
         std::istringstream is(line);
         int algo, rep, ov, lcpi; unsigned long long memll, depthll, nll;
         is >> algo >> rep >> ov >> lcpi >> memll >> depthll >> nll;
@@ -263,6 +279,7 @@ int main(int argc, char** argv) {
                     if (lcp) { if (omit) tlx::sort_strings_lcp(a..., lcpa.data()); else tlx::sort_strings_lcp(a..., lcpa.data(), mem); }
                     else { if (omit) tlx::sort_strings(a...); else tlx::sort_strings(a..., mem); }
                 };
+                sync_point();
                 switch (ov % 10) {
                 case 0: call(ptrs.data(), n); break;
                 case 1: call(reinterpret_cast<char**>(ptrs.data()), n); break;
@@ -303,8 +320,7 @@ int main(int argc, char** argv) {
             }
             print_result(ids, lcp, lcpa, nullptr);
             for (size_t i = 0; i < orig.size(); ++i) delete[] orig[i];
-            fflush(stdout);
-            continue;
+            return;
         }
 #endif
 #if C03_PART & 2
@@ -318,6 +334,7 @@ int main(int argc, char** argv) {
                     if (lcp) { if (omit) tlx::sort_strings_lcp(a..., lcpa.data()); else tlx::sort_strings_lcp(a..., lcpa.data(), mem); }
                     else { if (omit) tlx::sort_strings(a...); else tlx::sort_strings(a..., mem); }
                 };
+                sync_point();
                 if (ov % 2 == 0) call(v.data(), n); else call(v);
             } else {
                 run_array<StdStringSet>(algo, view, lcp, depth, mem, v, lcpa,
@@ -326,8 +343,7 @@ int main(int argc, char** argv) {
             }
             std::vector<long> ids(n, 0);
             print_result(ids, lcp, lcpa, &v);
-            fflush(stdout);
-            continue;
+            return;
         }
 #endif
 #if C03_PART & 4
@@ -342,8 +358,7 @@ int main(int argc, char** argv) {
             std::vector<long> ids(n);
             for (size_t i = 0; i < n; ++i) { auto it = idx.find(v[i].get()); ids[i] = it == idx.end() ? -1 : it->second; }
             print_result(ids, lcp, lcpa, nullptr);
-            fflush(stdout);
-            continue;
+            return;
         }
         if (rep == 4) {
             std::string text = n ? strs[0] : std::string();
@@ -358,16 +373,43 @@ int main(int argc, char** argv) {
             StringSuffixSet ss(text, sa.begin(), sa.end());
             API_CHECK(ss.size() == sa.size());
             std::vector<std::uint32_t> lcpa(sa.size(), POISON);
+            sync_point();
             if (lcp) run_detail(algo, StringLcpPtr<StringSuffixSet, std::uint32_t>(ss, lcpa.data()), depth, mem);
             else run_detail(algo, StringPtr<StringSuffixSet>(ss), depth, mem);
             std::vector<long> ids(sa.size());
             for (size_t i = 0; i < sa.size(); ++i) ids[i] = sa[i] < text.size() ? static_cast<long>(sa[i]) : -1;
             print_result(ids, lcp, lcpa, nullptr);
-            fflush(stdout);
-            continue;
+            return;
         }
 #endif
-        puts("SKIPPED");   // representation not compiled into this part
+    }
+}
+
+int main(int argc, char** argv) {
+    if (argc < 2) return 2;
+    std::ifstream in(argv[1]);
+    std::vector<std::string> lines;
+    for (std::string line; std::getline(in, line);) if (!line.empty()) lines.push_back(line);
+    const size_t nthreads = argc > 2 ? static_cast<size_t>(atoi(argv[2])) : 1;
+    if (nthreads <= 1) {
+        for (const std::string& l : lines) { process(l); puts(g_line.c_str()); fflush(stdout); }
+        return 0;
+    }
+    std::vector<std::string> results(lines.size());
+    for (size_t base = 0; base < lines.size(); base += nthreads) {
+        const size_t k = std::min(nthreads, lines.size() - base);
+        std::atomic<size_t> arrived(0);
+        g_sync_arrived = 0; g_sync_k = k;
+        std::vector<std::thread> th;
+        for (size_t t = 0; t < k; ++t)
+            th.emplace_back([&, t]() {
+                ++arrived;
+                while (arrived.load() < k) std::this_thread::yield();       // start together
+                process(lines[base + t]);
+                results[base + t] = g_line;
+            });
+        for (auto& x : th) x.join();
+        for (size_t t = 0; t < k; ++t) puts(results[base + t].c_str());
         fflush(stdout);
     }
     return 0;
